@@ -136,91 +136,98 @@ Proof.
     | reflexivity ].
 Qed.
 
-(** [insert_data] *)
-Lemma m_insert_data_spec k st off arg :
-  m_insert_data k st off arg =
-  if len (data st) <? off then MRaised IndexSizeErr st
-  else if check k arg then MDone VUnit (with_data st (take off (data st) ++ arg ++ drop off (data st)))
-  else MInvalidArg st.
+(** what [replace_data] leaves, as one formula *)
+Lemma dom_replace_formula (d : str) off cnt x : off <= len d ->
+  dom_replace d off cnt x = Some (take off d ++ x ++ drop (N.min (off + cnt) (len d)) d).
 Proof.
-  unfold m_insert_data, insert_char_at, m_length, info_len.
-  destruct (N.ltb_spec (len (data st)) off) as [H|H]; [reflexivity|].
-  destruct (check k arg); [|reflexivity].
-  destruct (N.ltb_spec off (len (data st))) as [H2|H2]; [reflexivity|].
-  assert (off = len (data st)) as -> by lia. reflexivity.
+  intros H. unfold dom_replace.
+  destruct (N.ltb_spec (len d) off); [lia|].
+  destruct (N.ltb_spec (len d) (off + cnt)) as [H1|H1].
+  - replace (N.min (off + cnt) (len d)) with (len d) by lia.
+    rewrite (drop_all (len d) d) by lia. rewrite app_nil_r. reflexivity.
+  - replace (N.min (off + cnt) (len d)) with (off + cnt) by lia. reflexivity.
 Qed.
 
-Lemma m_insert_data_ok k st off arg :
-  check k arg = true ->
-  m_insert_data k st off arg = mlift st (dom_insert (data st) off arg).
+Lemma dom_insert_replace (d : str) off x : dom_insert d off x = dom_replace d off 0 x.
 Proof.
-  intros Hc. rewrite m_insert_data_spec, Hc. unfold dom_insert.
-  destruct (len (data st) <? off); reflexivity.
+  unfold dom_insert, dom_replace. destruct (N.ltb_spec (len d) off); [reflexivity|].
+  rewrite N.add_0_r. destruct (N.ltb_spec (len d) off); [lia | reflexivity].
 Qed.
 
-(** [delete_data] (repaired): clips, never overflows *)
-Lemma m_delete_data_spec st off cnt :
-  len (data st) <= usize_max -> off <= usize_max -> cnt <= usize_max ->
-  m_delete_data Repaired Debug st off cnt = mlift st (dom_delete (data st) off cnt).
+Lemma dom_delete_replace (d : str) off cnt : dom_delete d off cnt = dom_replace d off cnt [].
 Proof.
-  intros Hl Ho Hc. unfold m_delete_data, dom_delete, m_length, info_len.
-  destruct (N.ltb_spec (len (data st)) off) as [H|H]; [reflexivity|].
-  unfold delete_char_range. cbn [add_site]. unfold saturating_add.
-  set (n := len (data st)) in *.
-  assert (Ha : (if off <? n then off else n) = off).
-  { destruct (N.ltb_spec off n); lia. }
-  rewrite Ha.
-  destruct (N.ltb_spec n (off + cnt)) as [H2|H2].
-  - (* the count runs past the end: everything from offset on goes *)
-    destruct (N.ltb_spec (N.min (off + cnt) usize_max) n) as [H3|H3]; [lia|].
-    destruct (N.ltb_spec n off) as [H4|H4]; [lia|].
-    replace (n <? n) with false by (symmetry; apply N.ltb_irrefl). cbn [orb mlift].
-    rewrite (drop_all n (data st)) by (subst n; lia). now rewrite app_nil_r.
-  - assert (Hm : N.min (off + cnt) usize_max = off + cnt) by lia. rewrite Hm.
-    destruct (N.ltb_spec (off + cnt) n) as [H3|H3].
-    + destruct (N.ltb_spec (off + cnt) off) as [H4|H4]; [lia|].
-      destruct (N.ltb_spec n (off + cnt)) as [H5|H5]; [lia|]. reflexivity.
-    + assert (Hn : n = off + cnt) by lia.
-      destruct (N.ltb_spec n off) as [H4|H4]; [lia|].
-      replace (n <? n) with false by (symmetry; apply N.ltb_irrefl). cbn [orb mlift].
-      now rewrite Hn.
+  unfold dom_delete, dom_replace. destruct (len d <? off); [reflexivity|].
+  destruct (len d <? off + cnt); [rewrite app_nil_r; reflexivity | reflexivity].
+Qed.
+
+Lemma dom_append_replace (d x : str) : Some (dom_append d x) = dom_replace d (len d) 0 x.
+Proof.
+  unfold dom_append, dom_replace. rewrite N.ltb_irrefl, N.add_0_r, N.ltb_irrefl.
+  rewrite (take_all (len d) d) by lia. rewrite (drop_all (len d) d) by lia. rewrite app_nil_r. reflexivity.
 Qed.
 
 Lemma len_take_le (s : str) off : off <= len s -> len (take off s) = off.
 Proof. intros H. rewrite len_take. lia. Qed.
 
-(** [replace_data] = [delete_data] then [insert_data] *)
-Lemma m_replace_data_ok k st off cnt arg :
-  len (data st) <= usize_max -> off <= usize_max -> cnt <= usize_max -> check k arg = true ->
-  m_replace_data Repaired Debug k st off cnt arg = mlift st (dom_replace (data st) off cnt arg).
+(** [insert_data] (repaired): the RESULT is validated *)
+Lemma m_insert_data_spec k st off arg :
+  m_insert_data Repaired k st off arg =
+  if len (data st) <? off then MRaised IndexSizeErr st
+  else if check k (take off (data st) ++ arg ++ drop off (data st))
+       then MDone VUnit (with_data st (take off (data st) ++ arg ++ drop off (data st)))
+       else MInvalidArg st.
 Proof.
-  intros Hl Ho Hc Hk. unfold m_replace_data. rewrite m_delete_data_spec by assumption.
-  unfold dom_delete, dom_replace.
+  unfold m_insert_data, insert_char_at, m_length, info_len.
   destruct (N.ltb_spec (len (data st)) off) as [H|H]; [reflexivity|].
-  assert (Ht : len (take off (data st)) = off) by (apply len_take_le; lia).
-  destruct (N.ltb_spec (len (data st)) (off + cnt)) as [H2|H2]; cbn [mlift].
-  - rewrite m_insert_data_ok by assumption. unfold dom_insert. cbn [with_data data following].
-    rewrite Ht. rewrite N.ltb_irrefl. cbn [mlift with_data data following].
-    rewrite (take_all off (take off (data st))) by lia.
-    rewrite (drop_all off (take off (data st))) by lia. now rewrite app_nil_r.
-  - rewrite m_insert_data_ok by assumption. unfold dom_insert. cbn [with_data data following].
-    rewrite len_app, Ht.
-    destruct (N.ltb_spec (off + len (drop (off + cnt) (data st))) off) as [H3|H3]; [lia|].
-    cbn [mlift with_data data following].
-    pose proof (take_app_exact (take off (data st)) (drop (off + cnt) (data st))) as E1.
-    pose proof (drop_app_exact (take off (data st)) (drop (off + cnt) (data st))) as E2.
-    rewrite Ht in E1, E2. now rewrite E1, E2.
+  assert (E : (if off <? len (data st) then off else len (data st)) = off).
+  { destruct (N.ltb_spec off (len (data st))); lia. }
+  rewrite E. destruct (check k _); reflexivity.
 Qed.
 
-(** when the argument is refused, [replace_data] has already deleted (D39; not a C16 matter) *)
-Lemma m_replace_data_any k st off cnt arg :
-  len (data st) <= usize_max -> off <= usize_max -> cnt <= usize_max ->
-  m_replace_data Repaired Debug k st off cnt arg <> MPanic.
+(** [delete_char_range] (repaired): clips, never overflows *)
+Lemma delete_char_range_spec (s : str) off cnt :
+  len s <= usize_max -> off <= len s ->
+  delete_char_range Repaired Debug s off cnt = IOk (take off s ++ drop (N.min (off + cnt) (len s)) s).
 Proof.
-  intros Hl Ho Hc. unfold m_replace_data. rewrite m_delete_data_spec by assumption.
-  destruct (dom_delete (data st) off cnt); cbn [mlift]; [|discriminate].
-  rewrite m_insert_data_spec.
-  destruct (_ <? off); [discriminate|]. destruct (check k arg); discriminate.
+  intros Hl Ho. unfold delete_char_range. cbn [add_site]. unfold saturating_add.
+  set (n := len s) in *.
+  assert (Ha : (if off <? n then off else n) = off) by (destruct (N.ltb_spec off n); lia).
+  rewrite Ha.
+  destruct (N.ltb_spec (N.min (off + cnt) usize_max) n) as [H3|H3].
+  - assert (E : N.min (off + cnt) usize_max = off + cnt) by lia. rewrite E in *.
+    destruct (N.ltb_spec (off + cnt) off) as [H4|H4]; [lia|].
+    destruct (N.ltb_spec n (off + cnt)) as [H5|H5]; [lia|]. cbn [orb].
+    replace (N.min (off + cnt) n) with (off + cnt) by lia. reflexivity.
+  - destruct (N.ltb_spec n off) as [H4|H4]; [lia|].
+    replace (n <? n) with false by (symmetry; apply N.ltb_irrefl). cbn [orb].
+    replace (N.min (off + cnt) n) with n by lia. reflexivity.
+Qed.
+
+(** the one editing primitive of the repaired code: DOM Level 1's [replaceData], then the check
+    of the resulting string *)
+Lemma m_edit_data_spec k st off cnt arg :
+  len (data st) <= usize_max -> off <= usize_max -> cnt <= usize_max ->
+  m_edit_data Debug k st off cnt arg =
+  match dom_replace (data st) off cnt arg with
+  | None => MRaised IndexSizeErr st
+  | Some r => if check k r then MDone VUnit (with_data st r) else MInvalidArg st
+  end.
+Proof.
+  intros Hl Ho Hc. unfold m_edit_data, m_length, info_len.
+  destruct (N.ltb_spec (len (data st)) off) as [H|H].
+  - unfold dom_replace. destruct (N.ltb_spec (len (data st)) off); [reflexivity | lia].
+  - rewrite dom_replace_formula by exact H. unfold replace_char_range.
+    rewrite delete_char_range_spec by assumption.
+    set (e := N.min (off + cnt) (len (data st))).
+    unfold insert_char_at.
+    assert (Ht : len (take off (data st)) = off) by (apply len_take_le; exact H).
+    assert (Hi : (if off <? len (take off (data st) ++ drop e (data st)) then off
+                  else len (take off (data st) ++ drop e (data st))) = off).
+    { rewrite len_app, Ht. destruct (N.ltb_spec off (off + len (drop e (data st)))); lia. }
+    rewrite Hi.
+    pose proof (take_app_exact (take off (data st)) (drop e (data st))) as E1.
+    pose proof (drop_app_exact (take off (data st)) (drop e (data st))) as E2.
+    rewrite Ht in E1, E2. rewrite E1, E2. destruct (check k _); reflexivity.
 Qed.
 
 Lemma dom_replace_all (s arg : str) : dom_replace s 0 (len s) arg = Some arg.
@@ -247,49 +254,80 @@ Definition usize_args (c : call) : Prop :=
 Lemma implemented_offered k c : implemented k c = offered k c.
 Proof. destruct k, c; reflexivity. Qed.
 
+(** what the model answers to a data-writing call, in terms of DOM Level 1's result *)
+Definition checked (k : kind) (st : cdstate) (r : option str) : mres :=
+  match r with
+  | None => MRaised IndexSizeErr st
+  | Some d => if check k d then MDone VUnit (with_data st d) else MInvalidArg st
+  end.
+
+Lemma model_write k st c :
+  len (data st) <= usize_max -> usize_args c -> offered k c = true ->
+  match c with
+  | Append arg => model_call k st c = checked k st (Some (dom_append (data st) arg))
+  | Insert off arg => model_call k st c = checked k st (dom_insert (data st) off arg)
+  | Delete off cnt => model_call k st c = checked k st (dom_delete (data st) off cnt)
+  | Replace off cnt arg => model_call k st c = checked k st (dom_replace (data st) off cnt arg)
+  | SetData arg => model_call k st c = checked k st (Some arg)
+  | _ => True
+  end.
+Proof.
+  intros Hl Ha Ho. unfold model_call, model_call_v. rewrite implemented_offered, Ho. cbn [negb].
+  destruct c as [|off cnt|arg|off arg|off cnt|off cnt arg|arg|off]; cbn [usize_args] in *; try exact I.
+  - unfold m_append_data, m_length, info_len. rewrite m_insert_data_spec, N.ltb_irrefl.
+    rewrite take_all by lia. rewrite drop_all by lia. rewrite app_nil_r. reflexivity.
+  - rewrite m_insert_data_spec. unfold dom_insert, checked. destruct (len (data st) <? off); reflexivity.
+  - destruct Ha. unfold m_delete_data. rewrite m_edit_data_spec by assumption. rewrite dom_delete_replace. reflexivity.
+  - destruct Ha. unfold m_replace_data. rewrite m_edit_data_spec by assumption. reflexivity.
+  - unfold m_set_data, m_replace_data, m_length, info_len.
+    rewrite m_edit_data_spec; [|assumption|unfold usize_max; lia|assumption]. rewrite dom_replace_all. reflexivity.
+Qed.
+
 Theorem call_refines k st c :
-  len (data st) <= usize_max -> usize_args c -> call_storable k c = true ->
+  len (data st) <= usize_max -> usize_args c -> call_storable k st c = true ->
   model_call k st c = embed (dom_call k st c).
 Proof.
-  intros Hl Ha Hs. unfold model_call, model_call_v, dom_call. rewrite implemented_offered.
-  destruct (offered k c); cbn [negb]; [|reflexivity].
-  unfold call_storable in Hs. rewrite <- check_is_storable in Hs.
-  destruct c as [|off cnt|arg|off arg|off cnt|off cnt arg|arg|off]; cbn [usize_args arg_of] in *.
-  - reflexivity.
-  - destruct Ha. rewrite m_substring_data_spec by assumption.
+  intros Hl Ha Hs.
+  destruct (offered k c) eqn:Ho.
+  2:{ unfold model_call, model_call_v, dom_call. rewrite implemented_offered, Ho. reflexivity. }
+  pose proof (model_write k st c Hl Ha Ho) as W.
+  unfold call_storable in Hs. unfold dom_call in *. rewrite Ho in *. cbn [negb] in *.
+  destruct c as [|off cnt|arg|off arg|off cnt|off cnt arg|arg|off]; cbn [usize_args writes_data] in *.
+  - unfold model_call, model_call_v. rewrite implemented_offered, Ho. reflexivity.
+  - unfold model_call, model_call_v. rewrite implemented_offered, Ho. cbn [negb].
+    destruct Ha. rewrite m_substring_data_spec by assumption.
     destruct (dom_substring (data st) off cnt); reflexivity.
-  - unfold m_append_data, m_length, info_len. rewrite m_insert_data_ok by assumption.
-    rewrite dom_insert_end. reflexivity.
-  - rewrite m_insert_data_ok by assumption. now rewrite embed_lift.
-  - destruct Ha. rewrite m_delete_data_spec by assumption. now rewrite embed_lift.
-  - destruct Ha. rewrite m_replace_data_ok by assumption. now rewrite embed_lift.
-  - unfold m_set_data, m_length, info_len.
-    rewrite m_replace_data_ok; [|assumption|unfold usize_max; lia|assumption|assumption].
-    rewrite dom_replace_all. reflexivity.
-  - unfold m_split_text, dom_split, info_split_at, m_length, info_len.
+  - rewrite W. cbn [checked set_data_of data] in *. rewrite check_is_storable, Hs. reflexivity.
+  - rewrite W. destruct (dom_insert (data st) off arg) as [r|]; cbn [lift checked set_data_of data] in *; [|reflexivity].
+    rewrite check_is_storable, Hs. reflexivity.
+  - rewrite W. destruct (dom_delete (data st) off cnt) as [r|]; cbn [lift checked set_data_of data] in *; [|reflexivity].
+    rewrite check_is_storable, Hs. reflexivity.
+  - rewrite W. destruct (dom_replace (data st) off cnt arg) as [r|]; cbn [lift checked set_data_of data] in *; [|reflexivity].
+    rewrite check_is_storable, Hs. reflexivity.
+  - rewrite W. cbn [checked set_data_of data] in *. rewrite check_is_storable, Hs. reflexivity.
+  - unfold model_call, model_call_v. rewrite implemented_offered, Ho. cbn [negb].
+    unfold m_split_text, dom_split, info_split_at, m_length, info_len.
     destruct (N.ltb_spec (len (data st)) off) as [H|H]; [reflexivity|].
     destruct (N.ltb_spec off (len (data st))) as [H2|H2]; [reflexivity|].
     assert (off = len (data st)) as -> by lia. reflexivity.
 Qed.
 
+Lemma checked_no_panic k st r : checked k st r <> MPanic.
+Proof. unfold checked. destruct r as [d|]; [destruct (check k d)|]; discriminate. Qed.
+
 Theorem call_no_panic k st c :
   len (data st) <= usize_max -> usize_args c -> model_call k st c <> MPanic.
 Proof.
-  intros Hl Ha. unfold model_call, model_call_v.
-  destruct (implemented k c); cbn [negb]; [|discriminate].
-  destruct c as [|off cnt|arg|off arg|off cnt|off cnt arg|arg|off]; cbn [usize_args] in *.
+  intros Hl Ha.
+  destruct (offered k c) eqn:Ho.
+  2:{ unfold model_call, model_call_v. rewrite implemented_offered, Ho. discriminate. }
+  pose proof (model_write k st c Hl Ha Ho) as W.
+  destruct c as [|off cnt|arg|off arg|off cnt|off cnt arg|arg|off]; cbn [usize_args] in *;
+    try (rewrite W; apply checked_no_panic);
+    unfold model_call, model_call_v; rewrite implemented_offered, Ho; cbn [negb].
   - discriminate.
   - destruct Ha. rewrite m_substring_data_spec by assumption.
     destruct (dom_substring (data st) off cnt); discriminate.
-  - unfold m_append_data. rewrite m_insert_data_spec.
-    destruct (_ <? _); [discriminate|]. destruct (check k arg); discriminate.
-  - rewrite m_insert_data_spec.
-    destruct (_ <? _); [discriminate|]. destruct (check k arg); discriminate.
-  - destruct Ha. rewrite m_delete_data_spec by assumption.
-    destruct (dom_delete (data st) off cnt); discriminate.
-  - destruct Ha. now apply m_replace_data_any.
-  - unfold m_set_data, m_length, info_len.
-    apply m_replace_data_any; [assumption|unfold usize_max; lia|assumption].
   - unfold m_split_text. destruct (_ <? _); [discriminate|].
     destruct (info_split_at (data st) off). discriminate.
 Qed.
@@ -359,13 +397,20 @@ Qed.
 Lemma embed_state o : mstate_of (embed o) = Some (state_of o).
 Proof. destruct o; reflexivity. Qed.
 
+(** the hypothesis of the history theorem: every call has word-sized arguments and leaves
+    storable data, in the state in which it is made *)
+Fixpoint run_ok (k : kind) (st : cdstate) (cs : list call) : Prop :=
+  match cs with
+  | [] => True
+  | c :: cs' => usize_args c /\ call_storable k st c = true /\ run_ok k (state_of (dom_call k st c)) cs'
+  end.
+
 Theorem run_refines k : forall cs st,
-  len (data st) + args_len cs <= usize_max ->
-  Forall (fun c => usize_args c /\ call_storable k c = true) cs ->
+  len (data st) + args_len cs <= usize_max -> run_ok k st cs ->
   model_run k st cs = map embed (dom_run k st cs).
 Proof.
   induction cs as [|c cs IH]; intros st Hl Hall; [reflexivity|].
-  inversion Hall as [|? ? [Ha Hs] Hrest]; subst.
+  destruct Hall as [Ha [Hs Hrest]].
   cbn [args_len] in Hl.
   unfold model_run. cbn [model_run_v dom_run map]. fold (model_call k st c).
   rewrite (call_refines k st c) by (try assumption; lia).
@@ -373,54 +418,36 @@ Proof.
   pose proof (dom_call_len k st c). lia.
 Qed.
 
-(** the same bound on the model side, without assuming that the arguments are storable
-    (a refused [replace_data] leaves the data shorter: D39) *)
-Lemma dom_delete_len (s d : str) off cnt : dom_delete s off cnt = Some d -> len d <= len s.
+(** the same bound on the model side, for any arguments *)
+Lemma checked_len k st r st' n :
+  (forall d, r = Some d -> len d <= n) -> len (data st) <= n ->
+  mstate_of (checked k st r) = Some st' -> len (data st') <= n.
 Proof.
-  unfold dom_delete. destruct (_ <? off); [discriminate|].
-  destruct (_ <? off + cnt); intros [= <-]; rewrite ?len_app, ?len_take, ?len_drop; lia.
-Qed.
-
-Lemma m_insert_data_len k st off arg st' :
-  mstate_of (m_insert_data k st off arg) = Some st' -> len (data st') <= len (data st) + len arg.
-Proof.
-  rewrite m_insert_data_spec. destruct (_ <? off); cbn [mstate_of]; [intros [= <-]; lia|].
-  destruct (check k arg); cbn [mstate_of]; intros [= <-]; [|lia].
-  cbn [with_data data]. rewrite !len_app, len_take, len_drop. lia.
-Qed.
-
-Lemma m_replace_data_len k st off cnt arg st' :
-  len (data st) <= usize_max -> off <= usize_max -> cnt <= usize_max ->
-  mstate_of (m_replace_data Repaired Debug k st off cnt arg) = Some st' ->
-  len (data st') <= len (data st) + len arg.
-Proof.
-  intros Hl Ho Hc. unfold m_replace_data. rewrite m_delete_data_spec by assumption.
-  destruct (dom_delete (data st) off cnt) as [d|] eqn:E; cbn [mlift].
-  - intros Hi. apply m_insert_data_len in Hi. cbn [with_data data] in Hi.
-    apply dom_delete_len in E. lia.
-  - cbn [mstate_of]. intros [= <-]. lia.
+  intros Hr Hs. unfold checked. destruct r as [d|]; [destruct (check k d)|]; cbn [mstate_of]; intros [= <-];
+    cbn [with_data data]; try exact Hs. apply Hr. reflexivity.
 Qed.
 
 Lemma model_call_len k st c st' :
   len (data st) <= usize_max -> usize_args c ->
   mstate_of (model_call k st c) = Some st' -> len (data st') <= len (data st) + len (arg_of c).
 Proof.
-  intros Hl Ha. unfold model_call, model_call_v.
-  destruct (implemented k c); cbn [negb mstate_of]; [|intros [= <-]; lia].
+  intros Hl Ha.
+  destruct (offered k c) eqn:Ho.
+  2:{ unfold model_call, model_call_v. rewrite implemented_offered, Ho. cbn [negb mstate_of]. intros [= <-]. lia. }
+  pose proof (model_write k st c Hl Ha Ho) as W.
+  pose proof (dom_call_len k st c) as L. unfold dom_call in L. rewrite Ho in L. cbn [negb] in L.
   destruct c as [|off cnt|arg|off arg|off cnt|off cnt arg|arg|off]; cbn [usize_args arg_of] in *.
-  - cbn [mstate_of]. intros [= <-]. lia.
-  - destruct Ha. rewrite m_substring_data_spec by assumption.
+  - unfold model_call, model_call_v. rewrite implemented_offered, Ho. cbn [negb mstate_of]. intros [= <-]. lia.
+  - unfold model_call, model_call_v. rewrite implemented_offered, Ho. cbn [negb].
+    destruct Ha. rewrite m_substring_data_spec by assumption.
     destruct (dom_substring _ _ _); cbn [mstate_of]; intros [= <-]; lia.
-  - unfold m_append_data. apply m_insert_data_len.
-  - apply m_insert_data_len.
-  - destruct Ha. rewrite m_delete_data_spec by assumption.
-    destruct (dom_delete (data st) off cnt) as [d|] eqn:E; cbn [mlift mstate_of]; intros [= <-].
-    + cbn [with_data data]. apply dom_delete_len in E. lia.
-    + lia.
-  - destruct Ha. now apply m_replace_data_len.
-  - unfold m_set_data, m_length, info_len.
-    apply m_replace_data_len; [assumption|unfold usize_max; lia|assumption].
-  - unfold m_split_text, info_split_at. destruct (_ <? off); cbn [mstate_of]; intros [= <-]; [lia|].
+  - rewrite W. apply checked_len; [|lia]. intros d [= <-]. cbn [state_of set_data_of data] in L. exact L.
+  - rewrite W. apply checked_len; [|lia]. intros d E. rewrite E in L. cbn [lift state_of set_data_of data] in L. exact L.
+  - rewrite W. apply checked_len; [|lia]. intros d E. rewrite E in L. cbn [lift state_of set_data_of data] in L. exact L.
+  - rewrite W. apply checked_len; [|lia]. intros d E. rewrite E in L. cbn [lift state_of set_data_of data] in L. exact L.
+  - rewrite W. apply checked_len; [|lia]. intros d [= <-]. cbn [state_of set_data_of data] in L. exact L.
+  - unfold model_call, model_call_v. rewrite implemented_offered, Ho. cbn [negb].
+    unfold m_split_text, info_split_at. destruct (_ <? off); cbn [mstate_of]; intros [= <-]; [lia|].
     cbn [data]. rewrite len_take. lia.
 Qed.
 
@@ -438,6 +465,28 @@ Proof.
     revert Hin. apply IH; [lia|assumption].
 Qed.
 
+(** failure atomicity at the level of one node (the C13 statement seen from here): a call that is
+    refused, or raises, leaves the data as they were *)
+Theorem refused_call_keeps_data k st c st' :
+  len (data st) <= usize_max -> usize_args c ->
+  (model_call k st c = MInvalidArg st' \/ exists e, model_call k st c = MRaised e st') -> st' = st.
+Proof.
+  intros Hl Ha H.
+  destruct (offered k c) eqn:Ho.
+  2:{ unfold model_call, model_call_v in H. rewrite implemented_offered, Ho in H. destruct H as [H|[e H]]; discriminate. }
+  pose proof (model_write k st c Hl Ha Ho) as W.
+  assert (C : forall r, (checked k st r = MInvalidArg st' \/ exists e, checked k st r = MRaised e st') -> st' = st).
+  { intros r [E|[e E]]; unfold checked in E; destruct r as [d|]; try destruct (check k d); inversion E; reflexivity. }
+  destruct c as [|off cnt|arg|off arg|off cnt|off cnt arg|arg|off]; cbn [usize_args] in *;
+    try (rewrite W in H; eapply C; exact H);
+    unfold model_call, model_call_v in H; rewrite implemented_offered, Ho in H; cbn [negb] in H.
+  - destruct H as [H|[e H]]; discriminate.
+  - destruct Ha. rewrite m_substring_data_spec in H by assumption.
+    destruct (dom_substring (data st) off cnt); destruct H as [H|[e H]]; inversion H; reflexivity.
+  - unfold m_split_text in H. destruct (_ <? _); [|destruct (info_split_at (data st) off)];
+      destruct H as [H|[e H]]; inversion H; reflexivity.
+Qed.
+
 (** ** the six-argument statement of the property *)
 
 Definition usize_bounds (s : str) (off cnt : N) : Prop :=
@@ -447,7 +496,7 @@ Lemma usize_args_mk op off cnt arg : off <= usize_max -> cnt <= usize_max -> usi
 Proof. destruct op; cbn [mk_call usize_args]; auto. Qed.
 
 Theorem chardata_refines k s op off cnt arg :
-  off < 2 ^ 64 -> cnt < 2 ^ 64 -> len s < 2 ^ 64 -> storable k arg = true ->
+  off < 2 ^ 64 -> cnt < 2 ^ 64 -> len s < 2 ^ 64 -> call_storable k (St s []) (mk_call op off cnt arg) = true ->
   model_cd k s op off cnt arg = embed (spec_cd k s op off cnt arg).
 Proof.
   intros Ho Hc Hl Hs. unfold model_cd, spec_cd.
@@ -455,8 +504,15 @@ Proof.
   apply call_refines; cbn [data].
   - lia.
   - apply usize_args_mk; lia.
-  - unfold call_storable. destruct op; cbn [mk_call arg_of]; try assumption;
-      destruct k; reflexivity.
+  - exact Hs.
+Qed.
+
+(** an argument that the node kind can hold, put into an empty node or replacing everything, is
+    always accepted: the old form of the hypothesis is a special case *)
+Lemma set_data_storable k s arg : storable k arg = true -> call_storable k (St s []) (SetData arg) = true.
+Proof.
+  intros H. unfold call_storable, dom_call. cbn [writes_data]. destruct (offered k (SetData arg)); cbn [negb]; [|reflexivity].
+  cbn [set_data_of data]. exact H.
 Qed.
 
 Theorem no_panic k s op off cnt arg :
@@ -522,10 +578,18 @@ Proof. vm_compute. reflexivity. Qed.
 Example sample_history_in_scope :
   let cs := [Split 2; Append sample_arg; Delete 1 usize_max; Substring 0 usize_max; Length] in
   len (data (St sample [])) + args_len cs <= usize_max
-  /\ Forall (fun c => usize_args c /\ call_storable KText c = true) cs
+  /\ run_ok KText (St sample []) cs
   /\ model_run KText (St sample []) cs = map embed (dom_run KText (St sample []) cs).
 Proof.
   cbn zeta. split; [vm_compute; discriminate|]. split.
-  - repeat constructor; vm_compute; discriminate.
+  - cbn [run_ok usize_args]. repeat split; try (vm_compute; discriminate); vm_compute; reflexivity.
   - vm_compute. reflexivity.
 Qed.
+
+(** D39 / D46 on one node: the repaired code refuses the call that would leave "a--b" and keeps
+    the data; the pinned code deletes and reports success *)
+Example sample_delete_guarded :
+  model_call KComment (St [97; 45; 120; 45; 98] []) (Delete 2 1) = MInvalidArg (St [97; 45; 120; 45; 98] [])
+  /\ pinned_call Debug KComment (St [97; 45; 120; 45; 98] []) (Delete 2 1) = MDone VUnit (St [97; 45; 45; 98] [])
+  /\ pinned_call Debug KText (St [97; 98; 99] []) (Replace 1 1 [60]) = MInvalidArg (St [97; 99] []).
+Proof. vm_compute. repeat split. Qed.
